@@ -560,8 +560,16 @@ class Gen:
             else:
                 b = self.expr(names, d - 1)
             e = ("bin", op, a, b)
-            if self.allow_rel_arith and not self.smooth_only and rng.random() < 0.03:
-                e = ("bin", rng.choice("+*"), e, self.rel(names, 1))
+            if self.allow_rel_arith and not self.smooth_only and rng.random() < 0.04:
+                # relations used as numbers: next to a real-valued term, and next to each other (two numpy booleans
+                # are not two numbers: True + True is True, True - True raises)
+                k = rng.random()
+                if k < 0.5:
+                    e = ("bin", rng.choice("+*"), e, self.rel(names, 1))
+                else:
+                    # (a unary minus directly on a relation is refused by the loader with a TypeError, so the
+                    # negated indicator is written 0 - rel)
+                    e = ("bin", "+", e, ("bin", rng.choice("+--"), rng.choice([self.rel(names, 1), ("num", "0")]), self.rel(names, 1)))
             return e
         if r < 0.58:
             return ("neg", self.expr(names, d - 1))
@@ -597,6 +605,15 @@ class Gen:
                 # (sympytools.ContinuousConditional needs a Relational: Le(x, x) crashes the loader)
                 return ("ccond", rng.choice(["Lt", "Gt", "Le", "Ge"]), a, self.lit(),
                         self.expr(names, d - 1), self.expr(names, d - 1), self.poslit())
+            if rng.random() < 0.18:
+                # min / max / clamp / relu idioms: the branch values are the compared operands themselves, in either
+                # orientation (Conditional(Lt(x, 0), 0, x), Conditional(Gt(y, top), top, y), ...)
+                a = self.expr(names, d - 1)
+                if not variables(a):
+                    a = ("var", rng.choice(names)) if names else ("var", "t")
+                b = rng.choice([("num", rng.choice(["0", "1", "0.5", "2"])), self.expr(names, d - 1)])
+                tv, fv = rng.choice([(a, b), (b, a)])
+                return ("cond", ("rel", rng.choice(["Lt", "Gt", "Le", "Ge"]), a, b), tv, fv)
             return ("cond", self.rel(names, d - 1), self.expr(names, d - 1), self.expr(names, d - 1))
         if self.allow_mod and not self.smooth_only and rng.random() < 0.25:
             return ("mod", self.expr(names, d - 1), rng.choice([self.poslit(), ("neg", self.poslit()),
@@ -639,6 +656,15 @@ class Gen:
         states = names[:n_states]
         params = names[n_states:n_states + n_params]
         inters = names[n_states + n_params:]
+        if rng.random() < getattr(self, "p_prefix", 0.2):
+            # names that extend another name of the same kind (Ca / Ca_sr, g_K / g_Kr): lookups by prefix go wrong
+            for grp in (states, params, inters):
+                if len(grp) >= 2:
+                    j = rng.randrange(1, len(grp))
+                    new = grp[0] + rng.choice(["r", "_sr", "s", "2", "_", "_inf"])
+                    if new not in names and new not in GRAMMAR_WORDS and not (new.startswith("d") and new.endswith("_dt")):
+                        names[names.index(grp[j])] = new
+                        grp[j] = new
         comps = [""] if n_comps == 1 and rng.random() < 0.6 else [rng.choice(["Membrane", "I Na", "gate", "Ca", "main", "X-gate", "B"]) + (str(i) if i else "") for i in range(n_comps)]
         comp_of = {s: rng.choice(comps) for s in states}
         # unused names are never offered as operands
